@@ -1,0 +1,13 @@
+//go:build verif
+
+package content
+
+import "seehuhn.de/go/pdf"
+
+// Only compiled with the build tag "verif": access for the verification
+// harness, no behaviour of its own.
+
+func VerifTrHexDigit(c byte) byte          { return hexDigit(c) }
+func VerifTrIsASCIIFilter(n pdf.Name) bool { return isASCIIFilter(n) }
+func VerifTrNeedsClose(name OpName) bool   { return needsClose(name) }
+func VerifTrIsStrokeOp(name OpName) bool   { return isStrokeOp(name) }
